@@ -1,5 +1,5 @@
 From Coq Require Import ZArith List Bool.
-From RV Require Import Base.Wire Host.LCDAnim Device.DLCDAnim Device.DLCDAnimW Device.DLCDInject.
+From RV Require Import Base.Wire Host.LCDAnim Host.LCDReg Device.DLCDAnim Device.DLCDAnimW Device.DLCDInject.
 Import ListNotations.
 Open Scope Z_scope.
 
@@ -12,6 +12,9 @@ Open Scope Z_scope.
                     kind: 0 if (branches then else), 1 while, 2 for, 3 try (try body then handlers)
    case 6 (device, W-bit clock): (6 W cols rows (anim...) (t...))   t = TRUE tick times (any size); millis() = t mod 2^W,
                     the limiter computed in W-bit unsigned arithmetic (Device/DLCDAnimW.v); speed_ms cast to W bits
+   case 7 (host registry history): (7 cols rows (op...))   op = (0 style row text speed loop) animate | (1 now) tick |
+                    (2 row text) line | (3) clear | (4) begin;  per op: (raised? (event...) buffer ((key state)...)) with
+                    key = (style row count) - the triple the real key string '<style>:<row>:<count>' is rendered from
    style: 0 scroll, 1 blink, 2 typewriter, 3 bounce *)
 
 Definition un_style (z : Z) : option style :=
@@ -73,6 +76,49 @@ Fixpoint h_ticks (l : hlcd) (nows : list Z) : list wv :=
       match htick l now with
       | None => [WL [WI 1]]
       | Some (l', ev) => WL [WI 0; WL (map w_hev ev); w_hsnap l'] :: h_ticks l' rest
+      end
+  end.
+
+(* host registry history (Host/LCDReg.v): one output per call *)
+Definition w_key (k : hkey) : wv := let '(s, r, n) := k in WL [WI (style_code s); WI r; WI n].
+Definition w_rsnap (l : rlcd) : list wv :=
+  [w_matrix (r_buf l); WL (map (fun e => WL [w_key (fst e); w_hstate (snd e)]) (r_reg l))].
+
+Definition un_rop (v : wv) : option rop :=
+  match v with
+  | WL [WI 0; WI s; WI row; t; WI speed; lp] =>
+      match un_style s, un_text t, un_bool lp with
+      | Some sty, Some text, Some loop => Some (OAnimate sty row text speed loop)
+      | _, _, _ => None
+      end
+  | WL [WI 1; WI now] => Some (OTick now)
+  | WL [WI 2; WI row; t] => match un_text t with Some text => Some (OLine row text) | None => None end
+  | WL [WI 3] => Some OClear
+  | WL [WI 4] => Some OBegin
+  | _ => None
+  end.
+
+(* the buffer assignments of the call (animate, tick, line); the state after it is that of [rstep] *)
+Definition r_events (l : rlcd) (o : rop) : list hev :=
+  match o with
+  | OAnimate sty row text speed loop =>
+      match ranimate l sty row text speed loop with Some (_, ev) => ev | None => [] end
+  | OTick now => match rtick l now with Some (_, ev) => ev | None => [] end
+  | OLine row text =>
+      match hline (r_cols l) (r_rows l) (r_buf l) row text with Some (_, ev) => ev | None => [] end
+  | _ => []
+  end.
+
+(* an op the decoder does not know (an unknown style name): the call raises before it changes anything *)
+Fixpoint r_history (l : rlcd) (ops : list wv) : list wv :=
+  match ops with
+  | [] => []
+  | v :: rest =>
+      match un_rop v with
+      | None => WL (WI 1 :: WL [] :: w_rsnap l) :: r_history l rest
+      | Some o =>
+          let '(l', ok) := rstep l o in
+          WL (WI (if ok then 0 else 1) :: WL (map w_hev (r_events l o)) :: w_rsnap l') :: r_history l' rest
       end
   end.
 
@@ -206,6 +252,11 @@ Definition run (v : wv) : wv :=
               wok [WL (map w_dev ev0); w_matrix m0; WL (d_ticksW W cols sts m0 ts)]
           end
       | _, _ => wbad
+      end
+  | WL [WI 7; WI cols; WI rows; WL ops] =>
+      match rnew cols rows with
+      | None => werr 1
+      | Some l0 => wok [WL (r_history l0 ops)]
       end
   | WL [WI 3; WI speed; lp; WI budget; nows] =>
       match un_bool lp, un_text nows with
